@@ -810,6 +810,24 @@ def c13_merges(tier, seed):
             kind_, lib = real.outcome(GroupLibrary.Load, p)
             if kind_ == 'ok':
                 viol.append({'id': 'duplicate-%s-%s' % (s1, s2), 'input': [s1, s2], 'observed': 'loaded', 'expected': 'rejected (KeyError: multiple definitions)'})
+        # two libraries loaded SEPARATELY (each Load builds its own scheme object) and merged with Update: groups are matched by what they are, not by the
+        # scheme object they carry -- union, conflict, and nothing listed twice
+        n += 1
+        with real.quiet():
+            A_ = real.outcome(lambda: GroupLibrary.Load(os.path.join(tmp, 'h.yaml')))
+            B_ = real.outcome(lambda: GroupLibrary.Load(os.path.join(tmp, 's.yaml')))
+            if A_[0] == 'ok' and B_[0] == 'ok':
+                k_ = real.outcome(lambda: A_[1].Update(B_[1]))
+                names_ = sorted(str(g_) for g_ in A_[1])
+                c_ = A_[1]['C(C)(H)3']['thermochem'] if 'C(C)(H)3' in A_[1] else None
+                okm = k_[0] == 'ok' and names_.count('C(C)(H)3') == 1 and c_ is not None and c_.ND_H_ref is not None and c_.ND_S_ref is not None
+                if not okm:
+                    viol.append({'id': 'update-between-separately-loaded-libraries', 'input': "A = Load('h.yaml'); B = Load('s.yaml'); A.Update(B)", 'observed': {'outcome': str(k_)[:80], 'groups': names_,
+                                 'H, S': (getattr(c_, 'ND_H_ref', None), getattr(c_, 'ND_S_ref', None))}, 'expected': 'one entry C(C)(H)3 holding H and S'})
+                A2_ = GroupLibrary.Load(os.path.join(tmp, 'h.yaml'))
+                k2_ = real.outcome(lambda: A2_.Update(GroupLibrary.Load(os.path.join(tmp, 'h0.yaml'))))
+                if not (k2_[0] == 'exc' and k2_[1] == 'ReadOnlyDataError'):
+                    viol.append({'id': 'conflict-between-separately-loaded-libraries', 'input': "Load('h.yaml').Update(Load('h0.yaml'))", 'observed': str(k2_)[:80], 'expected': 'ReadOnlyDataError'})
         # no aliasing between the merged library and the included one
         n += 1
         p = write_library(tmp, 'library.yaml', units, {}, include=['h.yaml'])
@@ -1691,6 +1709,10 @@ def c15_histories(tier, seed):
     # decomposed another molecule
     scripts.append([{'op': 'load', 'name': 'BensonGA'}, {'op': 'decompose', 'name': 'BensonGA', 'smi': 'CCO'}, {'op': 'decompose', 'name': 'BensonGA', 'smi': 'CC'},
                     {'op': 'estimate', 'name': 'BensonGA', 'smi': 'CCO', 'what': 'get_SoR', 'se': True, 'T': 400.0}])
+    # a batch: decompose a homologous series first (the same group NAMES in different numbers), then estimate each member from its own decomposition
+    series = ['CCC', 'CCCC', 'CCCCCC']
+    scripts.append([{'op': 'load', 'name': 'BensonGA'}] + [{'op': 'decompose', 'name': 'BensonGA', 'smi': x} for x in series]
+                   + [{'op': 'estimate', 'name': 'BensonGA', 'smi': x, 'what': w, 'se': None, 'T': 400.0} for x in series for w in ('get_HoRT', 'get_CpoR')])
     cur = {'script': None, 'step': 0}
 
     def pick(field, options):
@@ -2036,6 +2058,34 @@ def c11_algebra(tier, seed):
             ok_, got_ = False, 'raised ' + type(e).__name__
         if not ok_:
             viol.append({'id': 'floordiv-number-left-%s' % type(left).__name__, 'input': '%r // ArrayQuantity([1., 2.], units="m")' % (left,), 'observed': str(got_), 'expected': 'an array quantity in 1/m, as for /'})
+    # in-place operators agree with the binary ones -- also on INTEGER arrays (a non-integral sum must not be cut down to the array's dtype)
+    for mk_ in (lambda: ArrayQuantity([1, 2, 3], units='m'), lambda: ArrayQuantity([1., 2., 3.], units='m')):
+        for opn_, f_in, f_bin in (('+=', lambda a_, b_: a_.__iadd__(b_), lambda a_, b_: a_ + b_), ('-=', lambda a_, b_: a_.__isub__(b_), lambda a_, b_: a_ - b_)):
+            n += 1
+            b_ = eval_qty('50 cm')
+            try:
+                r_in, r_bin = f_in(mk_(), b_), f_bin(mk_(), b_)
+                got_, want_ = [float(v_) for v_ in _np.asarray(r_in)], [float(v_) for v_ in _np.asarray(r_bin)]
+            except Exception as e:    # noqa
+                got_, want_ = 'raised ' + type(e).__name__, None
+            if got_ != want_:
+                viol.append({'id': 'inplace-%s-%s' % ('iadd' if opn_ == '+=' else 'isub', _np.asarray(mk_()).dtype), 'input': 'a = %s m (dtype %s); a %s 50 cm' % (list(_np.asarray(mk_())), _np.asarray(mk_()).dtype, opn_),
+                             'observed': str(got_), 'expected': str(want_)})
+    # views and copies of an array quantity that has ALREADY been used in an operation carry their own magnitudes (nothing remembered by the parent is inherited)
+    par = ArrayQuantity([1., 2., 5.], units='m')
+    _ = par + par, par < par, -par
+    for name_, der in (('reversed view', lambda: par[::-1]), ('slice', lambda: par[1:]), ('fancy index', lambda: par[[2, 0]]), ('copy', lambda: par.copy())):
+        n += 1
+        try:
+            d_ = der()
+            fresh_ = ArrayQuantity([float(v_) for v_ in _np.asarray(d_)], units='m')
+            pairs_ = [((-d_), (-fresh_)), (abs(d_), abs(fresh_)), (d_ + d_, fresh_ + fresh_), (d_ * 2.0, fresh_ * 2.0)]
+            ok_ = all([float(v_) for v_ in _np.asarray(x_)] == [float(v_) for v_ in _np.asarray(y_)] for x_, y_ in pairs_) and [bool(v_) for v_ in _np.ravel(d_ == fresh_)] == [True] * len(_np.asarray(d_)) if _np.ndim(d_ == fresh_) else bool(d_ == fresh_)
+            got_ = [[float(v_) for v_ in _np.asarray(x_)] for x_, _y in pairs_]
+        except Exception as e:    # noqa
+            ok_, got_ = False, 'raised ' + type(e).__name__
+        if not ok_:
+            viol.append({'id': 'derived-array-%s' % name_.replace(' ', '-'), 'input': 'p = [1, 2, 5] m; p + p; d = %s of p; -d, abs(d), d + d, d * 2' % name_, 'observed': str(got_)[:200], 'expected': 'the results for a fresh array with the magnitudes of d'})
     am, as_ = ArrayQuantity([1., 2., -3.], units='m'), ArrayQuantity([1., 2., -3.], units='s')
     for name_, f_, want_ in (('array != other dimension', lambda: am != as_, True), ('array == other dimension', lambda: am == as_, False),
                              ('array != plain list', lambda: am != [1., 2., -3.], True), ('array != plain number', lambda: am != 1.0, True)):
